@@ -22,6 +22,7 @@ AXE = "axecutor::Axecutor"
 def run(ctx):
     bounds(ctx)
     atomic(ctx)
+    typed_atomic(ctx)
     little_endian(ctx)
     total(ctx)
     invariant(ctx)
@@ -113,6 +114,58 @@ def atomic(ctx):
             ck.ok("C08.atomic", "api=" + api)
 
 
+def typed_atomic(ctx):
+    """C08.atomic for the typed writers: interpreted with the byte store able to refuse, no path on which a part of the value
+    has been handed to the byte store ends with a refusal (a store split in two gated halves commits the first half and then
+    fails on the second: seeded change S59)"""
+    ck, facts, R = ctx.check, ctx.facts, ctx.roles
+    ADDR = A.W(("address",), 64)
+    seen = set()
+    writers = [(b_, p_) for b_, p_ in sorted(R.mem_write.items())] + [(129, getattr(R, "mem_write_pub128", None))]
+    for bits, pth in writers:
+        if pth is None or pth in seen or pth not in facts.bodies:
+            continue
+        seen.add(pth)
+        body = facts.bodies[pth]
+        pr = P.HandlerPrims(facts, R)
+        pr.mem_fail_paths = True
+        pr.normalize_le = False
+        # the function under analysis is a primitive of the handler model itself: let it run, intercept what it calls
+        own = pth
+
+        def icpt(I, path, frame, t, name, args, pr=pr, own=own):
+            if name == own and frame.depth == 0:
+                return None
+            return pr.intercept(I, path, frame, t, name, args)
+        I = A.Interp(facts, intercept=icpt)
+        DATA = A.W(("data",), 128 if bits >= 128 else 64)
+        try:
+            outs = list(I.run(body, [P.self_ref(True), ADDR, DATA], A.Path()))
+        except Exception as e:  # noqa
+            ck.undecided_("C08.atomic", "api=%s" % body["name"], "interpretation failed: %s" % e)
+            continue
+        bad = None
+        nfail = 0
+        for o in outs:
+            if o.kind != "return" or not is_err(o):
+                continue
+            evs = o.path.events
+            fi = [i for i, e in enumerate(evs) if e[0] == "mem_fault"]
+            if not fi:
+                continue
+            nfail += 1
+            if any(e[0] == "mem_write" for e in evs[:fi[-1]]):
+                bad = bad or "part of the value is stored before a later part of the same store is refused"
+        inst = "api=%s" % body["name"]
+        if bad:
+            ck.violation("C08.atomic", inst, bad, where="%s:%d (%s)" % (body["span"][0], body["span"][1], body["name"]),
+                         what="a refused store has already changed memory")
+        elif nfail:
+            ck.ok("C08.atomic", inst, nfail)
+        else:
+            ck.undecided_("C08.atomic", inst, "no refusal path found")
+
+
 def little_endian(ctx):
     """typed accessors against the byte store, by bit provenance: the reader's value has byte i of the N/8 bytes read at
     the caller's address in bits 8i..8i+7 and zeroes above; the writer hands the byte store N/8 bytes at the caller's
@@ -177,25 +230,43 @@ def little_endian(ctx):
         if not oks:
             bad = "no success path"
         for o in oks:
-            wr = [e for e in o.path.events if e[0] == "mem_write" and e[1] == "bytes"]
-            if len(wr) != 1:
-                bad = bad or "%d byte writes" % len(wr)
+            # every store the writer hands on (byte tuples or narrower typed stores, in one piece or several): together
+            # they put bits 8i..8i+7 of the value at address + i, each byte once
+            wr = [e for e in o.path.events if e[0] == "mem_write"]
+            if not wr:
+                bad = bad or "0 byte writes"
                 continue
-            if wr[0][2] != ADDR:
-                bad = bad or "writes at %s, not the caller's address" % A.show(wr[0][2])
-            buf = wr[0][3]
-            while buf[0] in ("deref", "w"):
-                buf = buf[1]
-            if not (buf[0] == "agg" and buf[1] == "array"):
-                bad = bad or "written bytes are not a byte tuple the analysis can read (%s)" % A.show(buf)[:50]
+            placed = {}
+            for e in wr:
+                d_ = U.affine_norm(("bin", "Sub", e[2], ADDR, 64))
+                if d_[0]:
+                    bad = bad or "writes at %s, not at an offset from the caller's address" % A.show(e[2])[:50]
+                    continue
+                off = d_[1]
+                if e[1] == "bytes":
+                    buf = e[3]
+                    while buf[0] in ("deref", "w"):
+                        buf = buf[1]
+                    if not (buf[0] == "agg" and buf[1] == "array"):
+                        bad = bad or "written bytes are not a byte tuple the analysis can read (%s)" % A.show(buf)[:50]
+                        continue
+                    pieces = [A.bitvec(x, o.path)[:8] for x in buf[3]]
+                else:
+                    bv_ = A.bitvec(e[3], o.path)
+                    bv_ = bv_ + [0] * (e[1] - len(bv_))
+                    pieces = [bv_[8 * j:8 * j + 8] for j in range(e[1] // 8)]
+                for j, xb in enumerate(pieces):
+                    if off + j in placed:
+                        bad = bad or "byte %d is written twice" % (off + j)
+                    placed[off + j] = xb
+            if bad:
                 continue
-            if len(buf[3]) != bits // 8:
-                bad = bad or "writes %d bytes, expected %d" % (len(buf[3]), bits // 8)
+            if sorted(placed) != list(range(bits // 8)):
+                bad = bad or "writes bytes %s, expected 0..%d" % (sorted(placed)[:20], bits // 8 - 1)
                 continue
-            for i, x in enumerate(buf[3]):
-                xb = A.bitvec(x, o.path)[:8]
+            for i in range(bits // 8):
                 exp = [(("data",), 8 * i + k, False) for k in range(8)]
-                if xb != exp:
+                if placed[i] != exp:
                     bad = bad or "byte %d written is not bits %d..%d of the value" % (i, 8 * i, 8 * i + 7)
             if bits < 64:
                 if o.path.maxbits.get(("data",)) != bits and o.path.maxbits.get(DATA) != bits:
